@@ -50,6 +50,21 @@ CLAIMED = {
     "C10": dict(level="exploration", ref="DESIGN.md §3 C10",
         text="Per-link RDH-only histories starting at an HBF start, with bit flips over the header, boundary values, page/stop/orbit/trigger/FEE walks and packet loss/duplication/reordering, merged over 1-8 links and run through the whole pipeline under schedules in check sanity / check all x none / its. Exact two-sided oracle: [E10] iff the documented sanity predicate fails, [E11] iff the documented running automaton flags, each at the RDH's offset; nothing else reported.",
         note="Reference predicate / automaton in itsgen::models are written from doc/checks_list.md with the tie-breaks of DESIGN.md §2.4 (detector-field bits 4..11 legal, BC 0xdeb legal)."),
+    "C02": dict(level="exploration", ref="DESIGN.md §3 C02, appendix B",
+        text="Conforming multi-link streams + ONE entry of the stream-fault catalogue (55 entries: RDH sanity fields, packet loss/duplication/reordering, page/stop/orbit/trigger/FEE edits, status- and data-word IDs and reserved bits, state-dependent ITS rules, CDW index, lanes, excess padding, stave-level frames) at a seeded applicable position, run in all check modes under seeded schedules. One-sided oracle: >=1 message of the documented family at the offending RDH/word in every mode where the rule is active, exit status == -E value; purely stateful violations silent in check sanity.",
+        note="The catalogue's code/offset/mode table is DESIGN.md appendix B (doc/checks_list.md + README); cascading extra errors are allowed."),
+    "C06": dict(level="exploration", ref="DESIGN.md §3 C06",
+        text="Multi-link streams (conforming or with faults confined to single links): reference full run vs another merge of the same per-link sequences, the physically extracted single-link stream, a filter run, ONE single-threaded pass of the link through one real LinkValidator::run, and the stream with an extra fault on another link; messages normalised to (packet index in link, offset in packet) by the independent walker; per-link lists must be equal.",
+        note="Grouping by link (by FEE ID in stave mode); each FEE ID is carried by one link in the generated streams."),
+    "C13": dict(level="exploration", ref="DESIGN.md §3 C13",
+        text="Frames from the independent ALPIDE encoder (legal and with exactly one broken rule: lanes missing/extra/wrong group, chip or lane bunch counter, inner chip ID, chip count on inner lanes, duplicate chip, lane without chip, empty frame; optional lane announcing fatal) with seeded lane-word interleaving and continuation splits, generated twice with different pixel-hit content; exact per-frame verdict (E72/E73/E74/E75/E701 + E900x) at the frame start against the reference model, readout-flag counters against the chips' trailer flags.",
+        note="The frame in which a lane announces a fatal state is not judged (documentation does not say whether the announcing lane still counts)."),
+    "C15": dict(level="fault_enumeration", ref="DESIGN.md §3 C15",
+        text="History of runs: A writes the statistics file, B (other schedule seed, capacity cap, benign I/O faults) must accept it; then EVERY leaf of the stored file that the run also collects is perturbed one at a time (complete enumeration per file in 2 of 3 cases) and the input is changed by one packet: B must report the mismatch and exit with the -E status. All check modes, JSON/TOML, -m on/off, conforming and corrupted inputs.",
+        note="One known finding (round trip after a mid-stream fatal input error depends on scheduling) is listed in known_findings.json under its own site."),
+    "C20": dict(level="exploration", ref="DESIGN.md §3 C20",
+        text="Custom-check files (all subsets of cdps/triggers_pht/rdh_version with values equal to, below and above the truth; absent/commented keys; all-default file vs no file; OB chip count/orders on planned frames) and trigger period P vs internal-trigger TDH sequences generated at P' with jitter and wrap-around: [E9001]/[E9002]/[E10]/[E9004]/[E9005]/[E45] iff configured != observed, nothing else, exit status accordingly; under seeded schedules.",
+        note="Ground truth from the generator and the independent walker; E45 model: BC distance mod 3564 to the previous internal-trigger TDH of the stave."),
 }
 
 NOT_BUILT_REASON = "check not built yet in this session (planned in DESIGN.md §3); not claimed until its machinery exists"
